@@ -389,6 +389,33 @@ fn constructors_case(a: &[u8], b: &[u8], skip_bstr_unicode: bool, out: &mut Loca
             match r {
                 Err(p) => out.violation("panic", format!("{} | {}", p, ctx())),
                 Ok(((all, _), (sl, _))) => {
+                    // the same texts handed over as String / Cow<str> / Vec<u8> (DiffableStrRef)
+                    if tok == 0 {
+                        let r2 = guard(|| {
+                            if as_str {
+                                let (sa, sb) = (std::str::from_utf8(a).unwrap().to_string(), std::str::from_utf8(b).unwrap().to_string());
+                                let from_string = collect(&TextDiff::from_lines(&sa, &sb)).0;
+                                let (ca, cb): (std::borrow::Cow<str>, std::borrow::Cow<str>) = (std::borrow::Cow::Owned(sa.clone()), std::borrow::Cow::Borrowed(&sb));
+                                let from_cow = collect(&TextDiff::configure().diff_lines(&ca, &cb)).0;
+                                (from_string, from_cow)
+                            } else {
+                                let (va, vb) = (a.to_vec(), b.to_vec());
+                                let from_vec = collect(&TextDiff::from_lines(&va, &vb)).0;
+                                let (ca, cb): (std::borrow::Cow<[u8]>, std::borrow::Cow<[u8]>) = (std::borrow::Cow::Borrowed(a), std::borrow::Cow::Owned(vb.clone()));
+                                let from_cow = collect(&TextDiff::configure().diff_lines(&ca, &cb)).0;
+                                (from_vec, from_cow)
+                            }
+                        });
+                        match r2 {
+                            Err(p) => out.violation("panic", format!("String / Cow / Vec<u8> input: {} | {}", p, ctx())),
+                            Ok((x, y)) => {
+                                if x != all || y != all {
+                                    out.violation("text.owned_input_differs", format!("String / Vec<u8> / Cow inputs give different changes than the borrowed text | {}", ctx()));
+                                }
+                                out.count("owned_input_conversions_checked");
+                            }
+                        }
+                    }
                     judge("from_* constructor", &all, a, b, &ctx, out);
                     judge("from_slices over line tokens", &sl, a, b, &ctx, out);
                     // same as the default-configured builder
